@@ -6,15 +6,20 @@ sys.path.insert(0, os.path.dirname(os.path.abspath(__file__)))
 import check
 pid = sys.argv[1]; seed = sys.argv[2] if len(sys.argv) > 2 else None
 tier = os.environ.get('VERIF_TIER', 'quick')
+scratch = None
 if seed:
-    rc = subprocess.call(["git", "-C", "/repo", "apply", "/verif/seeded/%s/patch.diff" % seed])
-    if rc: sys.exit('patch does not apply')
+    # the seeded change is applied to a scratch COPY of /repo's sources (never to /repo itself)
+    scratch = tempfile.mkdtemp(prefix='cjseed_')
+    for f in ('cJSON.c', 'cJSON.h', 'cJSON_Utils.c', 'cJSON_Utils.h'): shutil.copy('/repo/' + f, scratch)
+    rc = subprocess.call(['git', 'apply', '--include=cJSON*', '/verif/seeded/%s/patch.diff' % seed], cwd=scratch)
+    if rc: shutil.rmtree(scratch); sys.exit('patch does not apply')
+    check.REPO = scratch
 try:
     mod = importlib.import_module('props.' + pid)
     tmp = tempfile.mkdtemp(); log = []
     area = getattr(mod, 'AREA', 'base'); impl = check.build_impl(tmp, log, area=area, extra_flags=getattr(mod, 'IMPL_FLAGS', ''))
     ctx = {'tmp': tmp, 'tier': tier, 'seed': int(os.environ.get('VERIF_SEED', '1')), 'verif': '/verif', 'impl': impl, 'model': '/verif/ocaml/driver_' + area,
-           'run_driver': check.run_driver, 'build_impl': check.build_impl, 'sh': check.sh, 'log': log, 'repo': '/repo'}
+           'run_driver': check.run_driver, 'build_impl': check.build_impl, 'sh': check.sh, 'log': log, 'repo': check.REPO}
     cases = mod.corpus(ctx) + mod.generate(ctx)
     lines = [c.line for c in cases]
     t = time.time(); io, _ = check.run_driver(impl, lines, tmp); t1 = time.time(); mo, _ = check.run_driver(ctx['model'], lines, tmp); t2 = time.time()
@@ -32,4 +37,4 @@ try:
     print(pid, 'seed', seed, 'cases', len(cases), 'verdict failures', bad, 'mismatches', mism, 'impl %.1fs model %.1fs' % (t1 - t, t2 - t1), 'specdiff', sum('SPECDIFF' in m for m in mo), log)
     shutil.rmtree(tmp, ignore_errors=True)
 finally:
-    if seed: subprocess.call(['git', '-C', '/repo', 'checkout', '--', '.'])
+    if scratch: shutil.rmtree(scratch, ignore_errors=True)
